@@ -473,8 +473,21 @@ TINY_RAISERS = ["assertEq(1, 2)", "assertNe(3, 3)", 'assertEq("a", [1])', "asser
                 "[1].iter().zip(4)", 'Error()', 'Error(1)', '[1].iter().into(|it| it.nope)']
 
 
+TINY_CALLBACKS = ["T()", "[T()]", "(T(), 1)", "{1: T()}", '"${T()}"', "[T(), T()].str()", "[3, 1, 2].sort(|a, b| a - b)", "[1, 2].iter().map(|x| [x, [x]]).list()",
+                  "[1, 2].iter().filter(|x| [x].len() > 0).list()", '[1, 2].iter().reduce("", |a, b| a + b.str())', "[1, 2].iter().zip([3, 4].iter()).list()",
+                  '["a", "b"].iter().map(|x| x + "c").into(List.collect)', "2.times().map(|x| T().str()).list()", '"a,b".split(",").map(|x| x + x).list()',
+                  "[[1], [2]].iter().map(|x| x.len()).list()", "Error(\"m\" + 1.str()).message", "[1, 2, 3].slice(1).len()", '"abc".slice(1) + "d"',
+                  "[1].iter().chain([2].iter()).list()", "[1, 2].iter().take(1).list()", "T().str().len()", "assertEq(T().str(), \"t1\")"]
+
+
 def tiny_error_programs():
     out = []
+    # calls that call back into the interpreter or allocate several objects, as the deepest point of a script
+    for i, what in enumerate(TINY_CALLBACKS):
+        pre = 'class T { str() { return "t" + 1.str(); } }\n'
+        out.append((f"tinycb:{i}", pre + f"print({what});\n"))
+        out.append((f"tinycbfiber:{i}", pre + f"fn w(ch) {{ ch <- {what}; }}\nlet ch = chan(1);\nlaunch w(ch);\nprint(<- ch);\n"))
+        out.append((f"tinycbmethod:{i}", pre + f"class U {{ m() {{ return {what}; }} }}\nprint(U().m());\n"))
     for i, what in enumerate(TINY_RAISERS):
         for pre in range(0, 4):
             lets = "".join(f"let p{j} = {j};\n" for j in range(pre))
